@@ -67,7 +67,9 @@ def build_attr(name, model, kind, cfg):
         tup = lambda v: tuple(v) if isinstance(v, list) else v  # noqa: E731
         return A.Occlusion(model, batch_size=cfg["bs"], patch_size=tup(cfg["patch"]), patch_stride=tup(cfg["stride"]))
     if name == "Rise":
-        return A.Rise(model, batch_size=cfg["bs"], nb_samples=5, grid_size=2, preservation_probability=1.0)
+        # preservation 1.0: the draws cannot change the result; 0.5: the draws matter and are aligned between the used and the
+        # fresh object by re-seeding TensorFlow before the compared calls (tf.random.set_seed resets the kernels' counters)
+        return A.Rise(model, batch_size=cfg["bs"], nb_samples=5, grid_size=2, preservation_probability=cfg.get("rise_p", 1.0))
     if name == "Lime":
         return A.Lime(model, batch_size=cfg["bs"], nb_samples=12, pertub_func=lime_pertub)
     if name == "KernelShap":
@@ -115,8 +117,16 @@ def run_attr_case(ctx, d):
         y = np.eye(2, dtype=np.float32)[rng.integers(2, size=n)] * rng.choice([1.0, -1.0, 2.0])
         return x, y.astype(np.float32)
 
+    same_buffer = bool(d.get("same_buffer"))
+    if same_buffer:
+        # every call passes THE SAME two NumPy objects, rewritten in place between the calls (a training-loop buffer): the
+        # result may depend on the values held at call time only (added after a seeded identity-keyed conversion cache)
+        d["history_N"] = [d["N"]] * len(d["history_N"])
+        ctx.count("same_buffer_cases")
     calls = [data(n) for n in d["history_N"]]
     final = data(d["N"])
+    xbuf = np.zeros_like(final[0])
+    ybuf = np.zeros_like(final[1])
 
     def seeded(fn):
         tf.random.set_seed(d["case_seed"] % 991)
@@ -131,6 +141,11 @@ def run_attr_case(ctx, d):
     others = []
     for i, (x, y) in enumerate(calls):
         xc, yc = x.copy(), y.copy()
+        if same_buffer:
+            xbuf[...] = x
+            ybuf[...] = y
+            x, y = xbuf, ybuf
+        tf.random.set_seed(d["case_seed"] % 991 + 17 + i)      # earlier calls draw from OTHER random streams than the compared call
         ok, _ = ctx.impl_call(d, lambda: obj(x, y).numpy(), signature=f"history-call")
         if not ok:
             ctx.case(d, False)
@@ -152,11 +167,17 @@ def run_attr_case(ctx, d):
                 del om, oe
                 gc.collect()
     xf, yf = final
-    ok, r_hist = ctx.impl_call(d, lambda: seeded(lambda: obj(xf, yf).numpy()), signature="final-call")
+    if same_buffer:
+        xbuf[...] = xf
+        ybuf[...] = yf
+        xh, yh = xbuf, ybuf
+    else:
+        xh, yh = xf, yf
+    ok, r_hist = ctx.impl_call(d, lambda: seeded(lambda: obj(xh, yh).numpy()), signature="final-call")
     if not ok:
         ctx.case(d, False)
         return
-    r_hist2 = seeded(lambda: obj(xf, yf).numpy())
+    r_hist2 = seeded(lambda: obj(xh, yh).numpy())
     fresh = seeded(lambda: build_attr(name, model, kind, cfg))
     r_fresh = seeded(lambda: fresh(xf, yf).numpy())
     tol = dict(rtol=2e-4, atol=2e-5) if name in ("KernelShap",) else dict(rtol=1e-5, atol=1e-6)
@@ -470,7 +491,12 @@ def gen_cases(ctx):
                           "history_N": [int(rng.integers(1, 5)) for _ in range(hl)], "N": int(rng.integers(1, 4)),
                           "interleave": [bool(b) for b in rng.integers(2, size=3)],
                           "cfg": {"bs": int(rng.choice([1, 2, 4, 16])), "patch": patch, "stride": stride},
-                          "case_seed": int(rng.integers(1 << 31))})
+                          "same_buffer": bool(r % 2 == 1), "case_seed": int(rng.integers(1 << 31))})
+            if name == "Rise" and r % 2 == 0:
+                cases[-1]["cfg"]["rise_p"] = 0.5
+                # the first earlier call has another N than the compared call: Rise._get_masks is traced per input shape, and
+                # within one trace the draws restart identically after every re-seeding whatever the seed value
+                cases[-1]["history_N"] = [cases[-1]["N"] + 1] + cases[-1]["history_N"][1:]
     for name in METRICS:
         for r in range(reps * 2):
             kind = ["tab", "img", "ts"][r % 3] if name != "MuFidelity" else ["tab", "img"][r % 2]
